@@ -43,6 +43,86 @@ def ctor_symbolic(maxlen):
     return h
 
 
+TOKENS = ["a", "1", "-", "^", "$", ".", "*", "+", "?", "|", "(", ")", "[", "]", "{", "}", "{2}", "{1,}", "{2,1}", ",", "\\", "\\d", "\\w", "\\S",
+          "\\b", "\\B", "\\1", "\\2", "\\0", "\\9", "\\x41", "\\x4", "\\u0041", "\\u004", "\\u{41}", "\\u{110000}", "\\u{80000000}",
+          "\\u{ffffffffff}", "\\cA", "\\c", "\\cß", "\\c1", "\\k<n>", "(?:", "(?=", "(?!", "(?<=", "(?<!", "(?<n>", "(?", "\\n", "\\/", "é", "ß", "\\-",
+          "\\]", "\\^"]
+CLASS_TOKENS = ["a", "z", "0", "-", "^", "]", "\\d", "\\w", "\\S", "\\b", "\\B", "\\x41", "\\u0041", "\\u{41}", "\\cA", "\\c", "\\1",
+                "\\-", "\\]", "[", "\\", "é", ".", "\\n", "\\0"]
+
+
+def ctor_tokens(k, first=None):
+    """Token soup: k tokens of the regex vocabulary (multi-character escapes, group openers, quantifiers ...)."""
+    def h(i1, i2, i3):
+        idx = [i1, i2, i3]
+        toks = [] if first is None else [first]
+        for j in range(3):
+            if j < k:
+                toks.append(pick(idx[j], TOKENS))
+            else:
+                pre(idx[j] == 0)
+        with NoTracing():
+            return construct_everywhere("".join(toks))
+    h.__annotations__ = {"i1": int, "i2": int, "i3": int, "return": bool}
+    return h
+
+
+def ctor_class(form):
+    """Character classes: '[' t1 t2 t3 ']' and the range form '[' t1 '-' t2 ']' (optionally negated)."""
+    def h(neg, i1, i2, i3):
+        t1, t2 = pick(i1, CLASS_TOKENS), pick(i2, CLASS_TOKENS)
+        if form == "range":
+            pre(i3 == 0)
+            body = t1 + "-" + t2
+        else:
+            body = t1 + t2 + pick(i3, CLASS_TOKENS)
+        p = "[" + ("^" if neg else "") + body + "]"
+        with NoTracing():
+            return construct_everywhere(p)
+    h.__annotations__ = {"neg": bool, "i1": int, "i2": int, "i3": int, "return": bool}
+    return h
+
+
+def construct_everywhere(p):
+    """Success or a catchable SyntaxError through the constructor, the call form and string-pattern match/search."""
+    from microjs import Context
+    from microjs.errors import JSError
+    for script in (SCRIPT, SCRIPT_CALL, "var o; try { 'ab'.match(P); 'ab'.search(P); o = 'ok'; } catch (e) { o = e.name; } o"):
+        ctx = Context(time_limit=20)
+        ctx.set("P", p)
+        ctx.set("F", "")
+        try:
+            r = ctx.eval(script)
+        except JSError as e:
+            return "pattern %r: the error is not catchable by the script: %s" % (p, e)
+        if r == "ok":
+            cover("accepted")
+        elif r == "SyntaxError":
+            cover("rejected")
+        else:
+            return "pattern %r: a script sees %r (only success or SyntaxError are allowed)" % (p, r)
+    try:
+        Context(time_limit=20).eval("new RegExp(P)".replace("P", repr(p)) if False else "1")
+    except JSError:
+        pass
+    return True
+
+
+def ctor_wrapped(prefix, suffix, maxlen):
+    """prefix + (every string up to maxlen over all code points) + suffix through RegExp()."""
+    def h(x):
+        pre(len(x) <= maxlen)
+        from microjs.regex import RegExp, RegExpError
+        try:
+            RegExp(prefix + x + suffix)
+            cover("accepted")
+        except RegExpError:
+            cover("rejected")
+        return True
+    h.__annotations__ = {"x": str, "return": bool}
+    return h
+
+
 SCRIPT = "var o; try { var r = new RegExp(P, F); r.test('ab\\n'); r.exec('a1'); 'x'.replace(r, 'y'); o = 'ok'; } catch (e) { o = e.name; } o"
 SCRIPT_CALL = "var o; try { var r = RegExp(P); 'aab'.match(r); 'a b'.split(r); 'ab'.search(r); o = 'ok'; } catch (e) { o = e.name; } o"
 
@@ -238,6 +318,24 @@ def harnesses():
     hs.append(Harness(id="C10.ctor.sym3", fn=ctor_symbolic(3), bounds=["pattern: every string of length <= 3 over all code points"],
                       per_path=30, budget=1800, tier="thorough", must_exhaust=False, require=("accepted", "rejected"),
                       group="construction", functions=FNS))
+    hs.append(Harness(id="C10.ctor.tokens2", fn=ctor_tokens(2), bounds=["pattern: 2 solver-chosen tokens of %d (escapes, group openers, "
+                      "quantifiers ...), through eval: constructor, call form, string-pattern match/search" % len(TOKENS)],
+                      per_path=120, budget=900, require=("accepted", "rejected"), group="token soup", functions=FNS))
+    for i, first in enumerate(TOKENS):
+        hs.append(Harness(id="C10.ctor.tokens3.%02d" % i, fn=ctor_tokens(2, first), bounds=["pattern: %r + 2 solver-chosen tokens" % first],
+                          per_path=120, budget=1500, tier="thorough", group="token soup", functions=FNS))
+    hs.append(Harness(id="C10.ctor.class-range", fn=ctor_class("range"), bounds=["pattern: '[' ['^'] t1 '-' t2 ']' with solver-chosen class tokens (%d)" % len(CLASS_TOKENS)],
+                      per_path=120, budget=900, require=("accepted",), group="token soup", functions=FNS))
+    hs.append(Harness(id="C10.ctor.class3", fn=ctor_class("three"), bounds=["pattern: '[' ['^'] t1 t2 t3 ']' with solver-chosen class tokens"],
+                      per_path=120, budget=2400, tier="thorough", require=("accepted",), group="token soup", functions=FNS))
+    for wid, (pre_, suf) in enumerate([("\\c", ""), ("\\", ""), ("[\\", "]"), ("(?", "a)"), ("\\u{", "}"), ("a{", "}"), ("[a-", "]"), ("\\x", ""), ("(?<", ">a)")]):
+        hs.append(Harness(id="C10.ctor.wrapped.%d" % wid, fn=ctor_wrapped(pre_, suf, 1),
+                          bounds=["pattern: %r + every string of length <= 1 over all code points + %r" % (pre_, suf)],
+                          per_path=60, budget=300, group="construction", functions=FNS))
+        hs.append(Harness(id="C10.ctor.wrapped2.%d" % wid, fn=ctor_wrapped(pre_, suf, 2),
+                          bounds=["pattern: %r + every string of length <= 2 over all code points + %r (bug hunting: the "
+                                  "parser's int()/isdigit() calls realise)" % (pre_, suf)],
+                          per_path=60, budget=600, tier="thorough", must_exhaust=False, group="construction", functions=FNS))
     for first in VOCAB:
         name = "x%02x" % ord(first)
         hs.append(Harness(id="C10.ctor.vocab." + name, fn=ctor_vocab(first, 1),
